@@ -236,4 +236,11 @@ def build(tier, E=None):
                                     descr='caller validated before completion / first effect' + ('; accepted set = designated set' if des else ''),
                                     bounds='one call; params, state and caller symbolic; each path is cut at its caller validation (effects before it are executed)',
                                     max_paths=3000 if tier == 'quick' else 20000, expect_ok=False, wall_s=60 if tier == 'quick' else 300))
+    # designated callers that depend on the state rather than on a validate_immediate_caller_* set: a multisig transaction may be
+    # cancelled only by its proposer (approved[0]); the check is made by hand after accept_any (obligation shared with C12)
+    from . import C12
+    for n in ([2] if tier == 'quick' else [2, 3]):
+        O.append(Obligation('multisig.cancel[signers=%d] (designated caller = proposer)' % n, C12.run_cancel(n), C12.props_cancel, scenario=C12.make_scenario('Cancel'),
+                            descr='cancel: only approved[0] (a signer) may cancel; a rejected cancel commits nothing; txn removed; nothing else touched',
+                            bounds='%d signers; one call' % n, max_paths=60000))
     return O
